@@ -185,3 +185,22 @@ RULES = [
     ('R03.3', 'dominance: the transport write lies behind the not-disconnected test', r03_3),
     ('R-SO', 'SingleObserver is guard-and-latch; every .fire receiver is a SingleObserver field', r_so),
 ]
+
+from ..selftest import M  # noqa: E402
+F = 'txtorcon/torcontrolprotocol.py'
+MUTANTS = [
+    M('queue-not-emptied', F, "        self.defer = None\n        self.commands = []\n", "        self.defer = None\n", ['R03.1']),
+    M('only-inflight-failed', F, "outstanding = [self.command] + self.commands if self.command else self.commands", "outstanding = [self.command] if self.command else []", ['R03.1']),
+    M('inflight-forgotten', F, "outstanding = [self.command] + self.commands if self.command else self.commands", "outstanding = self.commands", ['R03.1']),
+    M('slot-not-cleared', F, "        self.command = None\n        self.defer = None\n        self.commands = []", "        self.defer = None\n        self.commands = []", ['R03.1']),
+    M('no-disconnect-fire', F, "        self._when_disconnected.fire(\n", "        (lambda x: x)(\n", ['R03.1']),
+    M('slot-kept-on-loss-leg', F, "            if self._when_disconnected.already_fired(d):\n                self.command = None\n                return", "            if self._when_disconnected.already_fired(d):\n                return", ['R03.2']),
+    M('write-before-loss-test', F, "            if self._when_disconnected.already_fired(d):\n                self.command = None\n                return\n", "", ['R03.3']),
+    M('so-no-latch', 'txtorcon/util.py', "            d.callback(self._fired)\n        self._observers = None\n", "            d.callback(self._fired)\n", ['R-SO']),
+    M('so-no-guard', 'txtorcon/util.py', "        if self._observers is None:\n            return  # raise RuntimeError(\"already fired\") ?\n", "", ['R-SO']),
+    M('so-when-fired-registers-always', 'txtorcon/util.py', "            d.callback(self._fired)\n        else:\n            self._observers.append(d)", "            d.callback(self._fired)\n        if self._observers is not None:\n            self._observers.append(d)", ['R-SO']),
+]
+TWINS = [
+    M('clear-queue', F, "        self.defer = None\n        self.commands = []\n", "        self.defer = None\n        del self.commands[:]\n"),
+    M('outstanding-list', F, "outstanding = [self.command] + self.commands if self.command else self.commands", "outstanding = [self.command] + list(self.commands) if self.command else list(self.commands)"),
+]
